@@ -196,7 +196,7 @@ func HarnessC14Enum() {
 
 // HarnessC14EnumFold: EnumCase(caseSensitive=false) additionally folds case for strings.
 func HarnessC14EnumFold() {
-	strs := []string{"a", "A", "b", "ǅ", "ǆ", ""}
+	strs := []string{"a", "A", "b", "ǅ", "ǆ", "", "σ", "ς", "Σ", "ſ", "s", "İ", "i", "K", "K"}
 	a, b := strs[verifChoose(len(strs))], strs[verifChoose(len(strs))]
 	got := EnumCase("p", "q", a, []interface{}{b}, false) == nil
 	verifAssert(got == verifFoldEq(a, b), "enumcase-folds-case")
